@@ -8,6 +8,7 @@ require (
 	github.com/anishathalye/porcupine v1.3.0
 	github.com/ipfs/go-cid v0.0.7
 	github.com/ipfs/go-datastore v0.4.5
+	github.com/ipfs/go-ipld-cbor v0.0.5
 	github.com/ipfs/ipfs-cluster v0.0.0
 	github.com/libp2p/go-libp2p v0.14.3
 	github.com/libp2p/go-libp2p-core v0.8.5
@@ -88,7 +89,6 @@ require (
 	github.com/ipfs/go-ipfs-pq v0.0.2 // indirect
 	github.com/ipfs/go-ipfs-provider v0.5.1 // indirect
 	github.com/ipfs/go-ipfs-util v0.0.2 // indirect
-	github.com/ipfs/go-ipld-cbor v0.0.5 // indirect
 	github.com/ipfs/go-ipld-format v0.2.0 // indirect
 	github.com/ipfs/go-ipns v0.1.0 // indirect
 	github.com/ipfs/go-log v1.0.5 // indirect
